@@ -82,8 +82,9 @@ def union_intervals(xs):
 
 # ---------------------------------------------------------------- norm siblings
 
-def config_atom(fn, e):
+def config_atom(fn, e, _seen=None):
     """Classify a guard expression."""
+    _seen = _seen or frozenset()
     e0 = e
     e = peel(e) if isinstance(e, tuple) and e and e[0] in ("ref", "deref") else e
     if e[0] == "field" and "config::Config" in (e[3] or ""):
@@ -99,9 +100,11 @@ def config_atom(fn, e):
             return ("class", str(e[3]).rsplit("::", 1)[1], b[1].rsplit("::", 1)[1])
     if e[0] == "local":
         # multi-def bool local: summarise its definitions
+        if e[1] in _seen:
+            return ("local", e[2] or "_%d" % e[1], ("cyclic",))
         ds = []
         for _, _, d in fn.def_exprs(e[1]):
-            a = config_atom(fn, d) if d[0] != "const" else ("const", d[1])
+            a = config_atom(fn, d, _seen | {e[1]}) if d[0] != "const" else ("const", d[1])
             ds.append(a)
         return ("local", e[2] or "_%d" % e[1], tuple(ds))
     return ("other", show(e0)[:100])
